@@ -1,13 +1,14 @@
-\* thorough tier, design-level model checking: every single-element change against every stored order of every
-\* subset of 1..5, the pair family, 3000 random draws of the product space, and every change of <= 3 elements
-\* the generating machine builds (ids 1..3, two worlds of histories)
+\* thorough tier, design-level model checking, static half: every single-element change against every stored order
+\* of every subset of 1..5, the pair family, houses, failing datasource, 3000 random draws of the product space
 CONSTANTS
   HMax = 5
+  SingleKinds = {"node", "way", "relation"}
   BothVis = FALSE
   PairVers = {2, 3}
   NRandom = 3000
-  BuildMax = 3
+  BuildMax = 0
   BuildIds = {1, 2, 3}
+  StaticInit = TRUE
 INIT Init
 NEXT Next
 INVARIANTS ModelIsExpected ModelMeetsJudge PrefixInv ScanInv
